@@ -48,6 +48,10 @@ impl SatSolver for RecordingSat {
 pub enum EncId {
     Menu(Enc),
     Stable,
+    /// encodings::new_default_complete_constraints_encoder()
+    FactoryComplete,
+    /// encodings::new_default_conflict_freeness_encoder()
+    FactoryConflictFreeness,
 }
 
 impl EncId {
@@ -55,11 +59,15 @@ impl EncId {
         match self {
             EncId::Menu(e) => e.name().to_string(),
             EncId::Stable => "default_stable".into(),
+            EncId::FactoryComplete => "new_default_complete_constraints_encoder()".into(),
+            EncId::FactoryConflictFreeness => "new_default_conflict_freeness_encoder()".into(),
         }
     }
 }
 
-pub const ALL_ENCS: [EncId; 7] = [
+pub const ALL_ENCS: [EncId; 9] = [
+    EncId::FactoryComplete,
+    EncId::FactoryConflictFreeness,
     EncId::Menu(Enc::AuxCF),
     EncId::Menu(Enc::AuxAdm),
     EncId::Menu(Enc::AuxCO),
@@ -73,12 +81,14 @@ fn make(e: EncId) -> Box<dyn ConstraintsEncoder<usize>> {
     match e {
         EncId::Menu(m) => make_encoder::<usize>(m).unwrap(),
         EncId::Stable => Box::<DefaultStableConstraintsEncoder>::default(),
+        EncId::FactoryComplete => crustabri::encodings::new_default_complete_constraints_encoder::<usize>(),
+        EncId::FactoryConflictFreeness => crustabri::encodings::new_default_conflict_freeness_encoder::<usize>(),
     }
 }
 
 fn family(r: &Ref, e: EncId) -> Vec<u32> {
     match e {
-        EncId::Menu(Enc::AuxCF) | EncId::Menu(Enc::ExpCF) => r.all_conflict_free(),
+        EncId::Menu(Enc::AuxCF) | EncId::Menu(Enc::ExpCF) | EncId::FactoryConflictFreeness => r.all_conflict_free(),
         EncId::Menu(Enc::AuxAdm) => r.all_admissible(),
         EncId::Stable => r.all_stable(),
         _ => r.all_complete(),
@@ -278,7 +288,7 @@ pub fn run(tier: Tier) -> i32 {
                 for (e, enc) in &encs {
                     // the large threshold graphs have far too many conflict-free / admissible sets;
                     // they exist for the complete-semantics encoders (hybrid switch)
-                    if g.n > 6 && matches!(e, EncId::Menu(Enc::AuxCF) | EncId::Menu(Enc::ExpCF) | EncId::Menu(Enc::AuxAdm)) {
+                    if g.n > 6 && matches!(e, EncId::Menu(Enc::AuxCF) | EncId::Menu(Enc::ExpCF) | EncId::Menu(Enc::AuxAdm) | EncId::FactoryConflictFreeness | EncId::FactoryComplete) {
                         continue;
                     }
                     for range in [false, true] {
